@@ -68,12 +68,12 @@ func (b *built) checkDescribe(scn string, x *index.Index, corp *index.Corpus, ar
 				continue
 			}
 			for attr, an := range attrNames {
-				got := db.Permanode.Attr[an]
+				got := noEmpty(db.Permanode.Attr[an])
 				gk := strings.Join(got, sep)
 				fmt.Fprintf(&ck.obs, "S%d%d%d=%q;", owner, hh, attr, got)
-				want := dedupSet(c.allowed(hyp{}, owner, attr, hLimit(hh)))
+				want := dedupSet(normSet(c.allowed(hyp{}, owner, attr, hLimit(hh))))
 				if !want[gk] {
-					cl := ck.classify("attr", func(hy hyp) bool { return dedupSet(c.allowed(hy, owner, attr, hLimit(hh)))[gk] })
+					cl := ck.classify("attr", func(hy hyp) bool { return dedupSet(normSet(c.allowed(hy, owner, attr, hLimit(hh))))[gk] })
 					ck.add("Describe", cl, "Describe(pn, at=h%d, owner=%s).Attr[%q] = %q; reference (repeated values dropped) allows %s", hh, sigNames[owner], an, got, showSet(want))
 				}
 			}
